@@ -3,9 +3,21 @@
   joints emitted once". Model: `EG.Polyline.points` (= `Polyline::points()`,
   src/primitives/polyline/points.rs). Helper lemmas: EG/Lemmas/Polyline.lean.
 
-  -- [V] a stroke-width-1 styled polyline draws exactly the point set of `points()` (`draw` goes through the thick-polyline code only for width > 1): carried by correspondence + oracle only
+  The styled polyline with stroke width 1 (`EG.Joins.drawStyled` / `pixels`,
+  EG/Model/ThickPolyline.lean = src/primitives/polyline/styled.rs): `draw_styled` is ONE
+  `draw_iter` call with `points().map(|p| Pixel(p, stroke_color))`, and `pixels()` is the `Thin` arm
+  `points()`; both are the `1 =>` arms of the model, so `one_pixel_polyline_is_points` is
+  definitional (`rfl`) - the thick-polyline code is reached for widths above 1 only. What is not
+  definitional is the picture: `one_pixel_polyline_picture` - on a target with any box, through
+  the native methods or the trait defaults, the pixels painted are exactly the points of `points()`
+  inside the box, in the stroke colour (a point of a self-crossing polyline is written several
+  times, always with the same colour) - and `one_pixel_polyline_picture_translate`: the `translate`
+  field moves the picture.
 -/
 import EG.Lemmas.Polyline
+import EG.Lemmas.PolylineSet
+import EG.Lemmas.RectTranslate
+import EG.Model.ThickPolyline
 namespace EG.C19
 open EG EG.Polyline
 
@@ -74,5 +86,101 @@ theorem polyline_points_translate (tr d : Pt) (vs : List Pt) :
   | [_] => rfl
   | a :: b :: u =>
     simp only [List.map_append, hline, htail]
+
+/-! ## The point set: the union of the segment lines -/
+
+/-- **A one-pixel polyline equals the union of its segment lines** (as a point set; the list form
+with each joint emitted once is `polyline_points`): `p` is a point of `points()` iff it is a point
+of `Line(v[i], v[i+1]).points()` for some `i`. For all vertex lists and every `translate`. -/
+theorem polyline_point_set (tr : Pt) (vs : List Pt) (p : Pt) :
+    p ∈ Polyline.points ⟨tr, vs⟩ ↔ ∃ l ∈ segments tr vs, p ∈ Line.points l := by
+  match vs with
+  | [] => rw [polyline_points_short tr [] (by decide)]; simp [segments]
+  | [a] => rw [polyline_points_short tr [a] (by simp)]; simp [segments]
+  | a :: b :: rest =>
+    rw [polyline_points]
+    have hstop : b + tr ∈ Line.points ⟨a + tr, b + tr⟩ := Line.stop_mem_points ⟨a + tr, b + tr⟩
+    have hl := later_segments_set tr p rest b
+    rw [← laterSegments_eq] at hl
+    simp only [segments, List.mem_append, List.mem_cons, exists_eq_or_imp]
+    constructor
+    · rintro (h | h)
+      · exact Or.inl h
+      · rcases hl.mp (Or.inr h) with h' | h'
+        · left; rw [h']; exact hstop
+        · exact Or.inr h'
+    · rintro (h | h)
+      · exact Or.inl h
+      · rcases hl.mpr (Or.inr h) with h' | h'
+        · left; rw [h']; exact hstop
+        · exact Or.inr h'
+
+/-! ## The styled polyline with stroke width 1 -/
+
+/-- The calls of `draw_styled` on a target, for the stroke colour `c`: nothing, one `draw_iter`
+with the points paired with `c`, or one `fill_solid` per rectangle. -/
+def polyCalls (c : Color) : Joins.PolyDraw → List Call
+  | .nothing => []
+  | .drawIter pts => [Call.drawIter (pts.map (fun p => (p, c)))]
+  | .fillSolids rs => rs.map (fun r => Call.fillSolid r c)
+
+/-- **Definitional** (the `1 =>` arms of the model, as of the source): with stroke width 1
+`draw_styled` is one `draw_iter` call with `points()`, and `pixels()` is `points()`. -/
+theorem one_pixel_polyline_is_points (pl : Polyline) (c : Color) :
+    Joins.drawStyled pl 1 = some (.drawIter (Polyline.points pl)) ∧
+    Joins.pixels pl 1 = some (Polyline.points pl) ∧
+    (Joins.drawStyled pl 1).map (polyCalls c) =
+      some [Call.drawIter ((Polyline.points pl).map (fun p => (p, c)))] :=
+  ⟨rfl, rfl, rfl⟩
+
+/-- **A stroke-width-1 styled polyline draws exactly the point set of `points()`**: on a target
+with box `B`, whether it implements the fill methods natively or through the trait defaults, a
+point carries the stroke colour iff it is a point of `points()` inside `B`, and nothing otherwise. -/
+theorem one_pixel_polyline_picture (pl : Polyline) (c : Color) (B : Rect) (d : Joins.PolyDraw)
+    (hd : Joins.drawStyled pl 1 = some d) (p : Pt) :
+    runNative B (polyCalls c d) p =
+      (if p ∈ Polyline.points pl ∧ B.contains p = true then some c else none) ∧
+    runDefault B (polyCalls c d) p = runNative B (polyCalls c d) p := by
+  have e : d = .drawIter (Polyline.points pl) := by
+    have : Joins.drawStyled pl 1 = some (.drawIter (Polyline.points pl)) := rfl
+    rw [this] at hd
+    exact (Option.some.inj hd).symm
+  subst e
+  unfold polyCalls
+  rw [runNative_drawIter, runDefault_drawIter]
+  exact ⟨picture_of_points B _ c p, rfl⟩
+
+example : Joins.drawStyled ⟨⟨1, 0⟩, [⟨0, 0⟩, ⟨3, 2⟩, ⟨0, 2⟩, ⟨3, 0⟩]⟩ 1 =
+    some (.drawIter (Polyline.points ⟨⟨1, 0⟩, [⟨0, 0⟩, ⟨3, 2⟩, ⟨0, 2⟩, ⟨3, 0⟩]⟩)) := rfl
+
+/-- **The `translate` field moves the picture**: the polyline translated by `d`, drawn on the
+target moved by `d`, paints at `p + d` what the polyline paints at `p`. -/
+theorem one_pixel_polyline_picture_translate (tr d : Pt) (vs : List Pt) (c : Color) (B : Rect)
+    (p : Pt) :
+    runNative (B.translate d)
+        (polyCalls c (.drawIter (Polyline.points ((⟨tr, vs⟩ : Polyline).translateBy d)))) (p + d) =
+      runNative B (polyCalls c (.drawIter (Polyline.points ⟨tr, vs⟩))) p ∧
+    runDefault (B.translate d)
+        (polyCalls c (.drawIter (Polyline.points ((⟨tr, vs⟩ : Polyline).translateBy d)))) (p + d) =
+      runDefault B (polyCalls c (.drawIter (Polyline.points ⟨tr, vs⟩))) p := by
+  have key : PMap.empty.apply (clipWrites (B.translate d)
+        ((Polyline.points ((⟨tr, vs⟩ : Polyline).translateBy d)).map (fun q => (q, c)))) (p + d) =
+      PMap.empty.apply (clipWrites B ((Polyline.points ⟨tr, vs⟩).map (fun q => (q, c)))) p := by
+    rw [picture_of_points, picture_of_points, polyline_points_translate, Rect.contains_translate]
+    have hm : p + d ∈ (Polyline.points ⟨tr, vs⟩).map (· + d) ↔ p ∈ Polyline.points ⟨tr, vs⟩ := by
+      rw [List.mem_map]
+      constructor
+      · rintro ⟨q, hq, he⟩
+        have e : q = p := by
+          rw [Pt.ext_iff'] at he ⊢
+          simp only [Pt.add_x, Pt.add_y] at he
+          constructor <;> omega
+        rw [e] at hq
+        exact hq
+      · intro h; exact ⟨p, h, rfl⟩
+    simp only [hm]
+  unfold polyCalls
+  rw [runNative_drawIter, runNative_drawIter, runDefault_drawIter, runDefault_drawIter]
+  exact ⟨key, key⟩
 
 end EG.C19
